@@ -25,7 +25,7 @@ class VError(Exception):
 # lexer
 # ------------------------------------------------------------------------------------------------
 TOKEN = re.compile(r"""
-    (?P<ws>\s+|//[^\n]*|/\*.*?\*/|\(\*.*?\*\))
+    (?P<ws>\s+|//[^\n]*|/\*.*?\*/|\(\*(?!\)).*?\*\))
   | (?P<num>\d*'s?[dhbDHB][0-9a-fA-F_xXzZ]+)
   | (?P<int>\d+)
   | (?P<id>[A-Za-z_$][A-Za-z0-9_$]*)
@@ -89,7 +89,12 @@ class Parser:
                 kind = self.next()[1]
             signed, rng = self.opt_signed_range()
             pname = self.next()[1]
-            ports.append({"dir": d, "kind": kind, "signed": signed, "width": rng, "name": pname, "init": None})
+            init = None
+            if self.accept("="):
+                init = self.expr()
+            if d not in ("input", "output", "inout"):
+                raise VError("port direction expected, got %r" % d)
+            ports.append({"dir": d, "kind": kind, "signed": signed, "width": rng, "name": pname, "init": init})
             self.accept(",")
         self.expect(";")
         items = []
@@ -346,6 +351,8 @@ class Design:
             self.vars[p["name"]] = {"width": p["width"], "signed": p["signed"], "val": 0 if p["dir"] == "input" else (X if p["kind"] == "reg" else X)}
             if p["dir"] == "input":
                 self.inputs.add(p["name"])
+            if p["init"] is not None:
+                inits.append((p["name"], p["init"]))
         for it in self.ast["items"]:
             if it[0] == "decl":
                 d = it[1]
@@ -691,9 +698,10 @@ class Design:
                 new = None
             elif w == m["width"]:
                 new = value & mask(w)
+            elif old is None:
+                new = None      # partial write into an X word: stays X as a whole (pessimistic)
             else:
-                base = old if old is not None else 0
-                new = (base & ~(mask(w) << lo)) | ((value & mask(w)) << lo)
+                new = (old & ~(mask(w) << lo)) | ((value & mask(w)) << lo)
             if new != old:
                 m["words"][idx] = new
                 changed = True
@@ -706,9 +714,10 @@ class Design:
                 new = None
             elif w == var["width"]:
                 new = value & mask(w)
+            elif old is None:
+                new = None      # partial write into an X variable: stays X as a whole (pessimistic)
             else:
-                base = old if old is not None else 0
-                new = (base & ~(mask(w) << lo)) | ((value & mask(w)) << lo)
+                new = (old & ~(mask(w) << lo)) | ((value & mask(w)) << lo)
             if new != old:
                 var["val"] = new
                 changed = True
